@@ -97,12 +97,21 @@ static void odd_keys(Stats &st, const Args &a) {
     TokParts tp = split_token(good);
     for (int prov = 0; prov < 2; prov++) { cs.push_back({prov, jwk, ALGS[ai].name, bad, "flagged-item(alg:256)-" + k->name}); cs.push_back({prov, jwk, ALGS[ai].name, tp.signing_input + "." + b64u_enc(std::string(tp.sdec.size(), 'j')), "flagged-item(alg:256)-" + k->name}); }
   }
+  // "a signature made with ... another algorithm": an RSA / EC / OKP key (which names no algorithm) asked to check an HS* token whose MAC
+  // anybody can compute - keyed with nothing, with the public PEM, with the raw public numbers. (If setkey refuses the pair the case does not exist.)
+  for (const KeySpec *k : KEYS) if (k->kind != K_OCT) for (const char *hs : {"HS256", "HS384", "HS512"}) {
+    JwkOpts o; o.priv = false; std::string jwk = jwk_json(*k, o); const AlgInfo *hi = alg_by_name(hs);
+    std::string in = b64u_enc(std::string("{\"alg\":\"") + hs + "\",\"typ\":\"JWT\"}") + "." + b64u_enc("{\"sub\":\"mallory\"}");
+    std::string rawpub = k->kind == K_RSA ? pkey_bn(k->pkey, OSSL_PKEY_PARAM_RSA_N) : k->kind == K_EC ? pkey_bn(k->pkey, OSSL_PKEY_PARAM_EC_PUB_X, (k->bits + 7) / 8) + pkey_bn(k->pkey, OSSL_PKEY_PARAM_EC_PUB_Y, (k->bits + 7) / 8) : std::string();
+    for (const std::string &secret : {std::string(), pkey_to_pem(k->pkey, false), rawpub, std::string(1, '\0')})
+      for (int prov = 0; prov < 2; prov++) cs.push_back({prov, jwk, hs, in + "." + b64u_enc(ref_hmac(secret, hi->md, in)), "hmac-token-against-" + k->name});
+  }
   for (size_t i = 0; i < cs.size(); i++) {
     if ((int)(i % a.nworkers) != a.worker) continue;
     for (int route = 0; route < 2; route++) {
       int r = run_odd(cs[i], route); st.evaluations++; st.cls(r < 0 ? "odd-key:not-applicable" : r ? "odd-key:accepted" : "odd-key:rejected");
       if (r == 0) st.nontrivial(mix(fnv(cs[i].token), mix(fnv(cs[i].jwk), cs[i].prov * 2 + route)));
-      if (r == 1) { st.violation(std::string("C01:accepts-token-nobody-could-sign:") + (cs[i].what.rfind("rsa-public", 0) == 0 ? "rsa-made-up-modulus" : "flagged-item") + ":" + prov_name(cs[i].prov), "a token without a valid signature is accepted under " + cs[i].what, odd_json(cs[i])); return; }
+      if (r == 1) { st.violation(std::string("C01:accepts-token-nobody-could-sign:") + (cs[i].what.rfind("rsa-public", 0) == 0 ? "rsa-made-up-modulus" : cs[i].what.rfind("hmac-token", 0) == 0 ? "hmac-token-under-asymmetric-key" : "flagged-item") + ":" + prov_name(cs[i].prov), "a token without a valid signature is accepted under " + cs[i].what, odd_json(cs[i])); return; }
     }
   }
 }
